@@ -41,7 +41,8 @@ def run(ctx):
     samples = []
     ctx.prove_deterministic(lambda h: H.build(h).obs, [("wb_new_fail", "wb_new_ok", "wb_same_ok"), ("rb_fail", "el_rec", "rb_fail", "tick_ok"), ("wb_new_ok",)])
     complete = True
-    for connected in (True, False):
+    plans = [(True, alphabet, depth), (False, alphabet, depth), (True, H.EV_SINGLE, 5 if ctx.quick else 6)]
+    for connected, alphabet_, depth_ in plans:
         def on_tr(hist, ev, nxt, connected=connected):
             rec = nxt.obs[-1]
             for sig, what in check_record(rec):
@@ -50,18 +51,18 @@ def run(ctx):
             if rec["writes"] and any(e.endswith("fail") and e.startswith("w") for e in hist):
                 stats["nontrivial"].add(H.canon(nxt))
             stats["outcomes"].add((rec["pre"], rec["ev"], rec["post"], len(rec["writes"]), bool(rec["stale"])))
-        res = explore.bfs(lambda h: H.build(h, connected), lambda s, h: H.enabled(s, h, alphabet), H.canon, on_tr, depth)
+        res = explore.bfs(lambda h: H.build(h, connected), lambda s, h, a=alphabet_: H.enabled(s, h, a), H.canon, on_tr, depth_)
         total["states"] += res.states
         total["transitions"] += res.transitions
         complete = complete and True
         samples += [list(h) for h in res.histories[-3:]]
-        ctx.note(f"[C24] connected_at_init={connected}: states={res.states} transitions={res.transitions} max_depth={res.max_depth} cut_at_bound={res.frontier_at_bound}")
+        ctx.note(f"[C24] connected_at_init={connected} alphabet={'single-writes' if alphabet_ is H.EV_SINGLE else 'cycles'} depth={depth_}: states={res.states} transitions={res.transitions} max_depth={res.max_depth} cut_at_bound={res.frontier_at_bound}")
     ctx.coverage.update(
         evaluations=total["transitions"], states=total["states"], transitions=total["transitions"],
         distinct_nontrivial=len(stats["nontrivial"]), distinct_outcomes=len(stats["outcomes"]),
         rule="BFS over all event histories up to depth over the alphabet; canonical states deduplicated; "
              "non-trivial = a state reached by an event that wrote to the hardware after an earlier failed write",
-        samples=samples, depth=depth, alphabet=list(alphabet), exhaustive=True,
+        samples=samples, depth=depth, alphabet=list(alphabet), second_alphabet=list(H.EV_SINGLE), second_depth=plans[2][2], exhaustive=True,
         explanation="exhaustive up to the depth bound: every event applied in every canonical state of depth < bound",
     )
     ctx.assumptions += ["values are compared only for equality by the decorator (order-preserving renaming in canon)",
